@@ -321,7 +321,7 @@ def check_decode(ctx, rep, prop, kind, repo):
 
 def check_resync(ctx, rep):
     from .rules_event import check_clone_faithful
-    check_clone_faithful(ctx, rep, ('ScancodeSet1', 'ScancodeSet2'))   # a copy that is in another state would not be 'resynchronised'
+    check_clone_faithful(ctx, rep, ('ScancodeSet1', 'ScancodeSet2', 'KeyEvent', 'KeyCode', 'KeyState', 'Error'))   # a copy in another state / of another key is not the same decoder / event
     """C07"""
     models = build_models(ctx, rep)
     bounds = {'set1': 1, 'set2': 2}
